@@ -808,7 +808,7 @@ theorem stmtFault_succ (P : Prog) (C : Code) (cx : Ctx) (fuel : Nat)
     cases init with
     | some e =>
       simp only [Allowed] at hal
-      rw [compS_varDecl_define cx lp x isBool e st hal] at hp
+      rw [compS_varDecl_define cx lp x isBool e st] at hp
       simp only [exec] at hex
       simp only [compS] at hp
       cases hv : evalE fuel P env e with
